@@ -4,6 +4,7 @@
 //   6 = symlink in 4 (level 3) -> directory 1, absolute target: a link to an ancestor (cycle)
 //   7 = symlink in 0 (level 1) -> directory 8, RELATIVE target (relative to the directory of the link)
 //   8 = a directory outside the root that lies LESS deep than the root        9 = file in 8
+//  10 = symlink in 0 (level 1) -> file 2 (a link to a non-directory)           11 = dangling symlink in 0 (level 1)
 // Paths are node ids; read_dir lists the children in the order above; check_file is a recorder that counts in `found` like the real one.
 use core::mem::MaybeUninit;
 pub use crate::query::TraversalMode;
@@ -22,6 +23,7 @@ impl Path {
     // joining a relative target with the directory of its link gives the node the link points to
     pub fn join(&self, rel: PathBuf) -> PathBuf { PathBuf(Path(rel.0 .0, false)) }
     pub fn canonicalize(&self) -> io::Result<PathBuf> { if self.1 { Err(IoError) } else { Ok(PathBuf(*self)) } }
+    pub fn is_dir(&self) -> bool { !self.1 && (self.0 as usize) < N && IS_DIR[self.0 as usize] }
 }
 impl PathBuf { pub fn from(s: String) -> PathBuf { PathBuf(Path(s.0, false)) } }
 #[derive(Clone, Copy, PartialEq, Eq, Debug)] pub struct String(pub u8);
@@ -45,7 +47,7 @@ pub fn error_message(a: &String, _b: &str) { unsafe { DIAG_COUNT += 1; DIAG_LAST
 pub fn path_error_message(p: &Path, _e: IoError) { unsafe { DIAG_COUNT += 1; DIAG_LAST = p.0; } }
 pub mod util_shim {
     use super::*;
-    pub fn canonical_path(p: &PathBuf) -> Result<String, String> { if p.0 .1 { Err(String(255)) } else { Ok(String(p.0 .0)) } }
+    pub fn canonical_path(p: &PathBuf) -> Result<String, String> { if p.0 .1 || p.0 .0 as usize >= N { Err(String(255)) } else { Ok(String(p.0 .0)) } }
     pub fn calc_depth(s: &String) -> u32 { CDEPTH[s.0 as usize] }
 }
 #[derive(Debug)] pub struct IoError;
@@ -68,7 +70,7 @@ impl Iterator for ReadDir { type Item = io::Result<DirEntry>;
 pub struct File;
 pub mod fs {
     use super::*;
-    pub fn read_dir(p: &Path) -> io::Result<ReadDir> { if p.1 || !IS_DIR[p.0 as usize] || unsafe { UNLISTABLE } == p.0 { Err(IoError) } else { Ok(ReadDir { dir: p.0, next: 1, bad_pending: unsafe { BAD_ENTRY_IN } == p.0 }) } }
+    pub fn read_dir(p: &Path) -> io::Result<ReadDir> { if p.1 || p.0 as usize >= N || !IS_DIR[p.0 as usize] || unsafe { UNLISTABLE } == p.0 { Err(IoError) } else { Ok(ReadDir { dir: p.0, next: 1, bad_pending: unsafe { BAD_ENTRY_IN } == p.0 }) } }
     pub struct File;
     // node 2 is a zip archive with two members
     impl File { pub fn open(p: &PathBuf) -> io::Result<super::File> { if p.0 .0 == 2 { Ok(super::File) } else { Err(IoError) } } }
